@@ -216,28 +216,44 @@ def build_and_audit(ctx, mod):
         errs = [l for l in out.splitlines() if "error" in l][:20]
         ctx.notes.append("lake build failed: " + " | ".join(errs))
     theorems = list(getattr(mod, "THEOREMS", []))
-    if ctx.build_ok:
+    lean_targets = list(getattr(mod, "LEAN_TARGETS", []))
+    good_targets, build_errs = lean_targets, {}
+    if not ctx.build_ok:
+        # sharpen the report: which targets still compile? (their theorems are audited as usual; the theorems that live only in a target
+        # that no longer compiles are the obligations that no longer check — named in the replay file)
+        good_targets = []
+        for t in lean_targets:
+            rc1, out1 = sh(["lake", "build", t], cwd=LEAN)
+            if rc1 == 0:
+                good_targets.append(t)
+            else:
+                build_errs[t] = " | ".join(l for l in out1.splitlines() if l.startswith("error"))[:600]
+        for d in getattr(mod, "DRIVERS", []):
+            rc1, out1 = sh(["lake", "build", d], cwd=LEAN)
+            if rc1 != 0:
+                build_errs[d] = " | ".join(l for l in out1.splitlines() if l.startswith("error"))[:600]
+        for t, e in build_errs.items():
+            ctx.obligation(f"build:{t}", False, e)
+    axioms = {}
+    if good_targets:
         audit = LEAN / "Audit" / f"{ctx.pid}.lean"
         audit.parent.mkdir(parents=True, exist_ok=True)
-        imports = "\n".join(f"import {t}" for t in getattr(mod, "LEAN_TARGETS", []))
+        imports = "\n".join(f"import {t}" for t in good_targets)
         audit.write_text(imports + "\n" + "\n".join(f"#print axioms {t}" for t in theorems) + "\n")
         rc, out = sh(["lake", "env", "lean", str(audit)], cwd=LEAN)
-        cur = None
-        axioms = {}
         text = out.replace("\n  ", " ")
         for m in re.finditer(r"'([^']+)' (depends on axioms: \[([^\]]*)\]|does not depend on any axioms)", text):
             axioms[m.group(1)] = set(a.strip() for a in (m.group(3) or "").split(",") if a.strip())
-        for t in theorems:
-            if t in axioms and axioms[t] <= STD_AXIOMS:
-                ctx.obligation(t, True, "axioms: " + ",".join(sorted(axioms[t])))
-            elif t in axioms:
-                ctx.obligation(t, False, "non-standard axioms: " + ",".join(sorted(axioms[t] - STD_AXIOMS)))
-            else:
-                ctx.obligation(t, False, "theorem not found in compiled environment")
-        ctx.theorem_axioms = {k: sorted(v) for k, v in axioms.items()}
-    else:
-        for t in theorems:
-            ctx.obligation(t, False, "build failed")
+    for t in theorems:
+        if t in axioms and axioms[t] <= STD_AXIOMS:
+            ctx.obligation(t, True, "axioms: " + ",".join(sorted(axioms[t])))
+        elif t in axioms:
+            ctx.obligation(t, False, "non-standard axioms: " + ",".join(sorted(axioms[t] - STD_AXIOMS)))
+        elif ctx.build_ok:
+            ctx.obligation(t, False, "theorem not found in compiled environment")
+        else:
+            ctx.obligation(t, False, "not available: its module (or a module it needs) no longer compiles — " + "; ".join(build_errs)[:300])
+    ctx.theorem_axioms = {k: sorted(v) for k, v in axioms.items()}
     hits = grep_forbidden()
     ctx.obligation("no-forbidden-constructs", not hits, "; ".join(hits[:5]))
     if ctx.tier == "thorough" and ctx.build_ok and getattr(mod, "LEAN_TARGETS", []):
